@@ -210,7 +210,9 @@ def ctl_memo_events(case):
             tree = pymc.to_tree(key)
             ret = sorted(index_of[s] for s in val)
         except Exception:
-            continue
+            return [{'drift': 'memo entry not projectable'}]
+        if '?' in json.dumps(tree):
+            return [{'drift': 'memo keys are not formulas'}]     # the mechanism changed: nothing to validate
         evs.append({'logic': 'CTL', 'n': K['n'], 'R': K['R'], 'L': K['L'], 'f': tree,
                     'out': {'ret': ret, 'isset': True, 'foreign': 0}})
     return evs
